@@ -269,6 +269,10 @@ def cases_for_graph(ctx, a, rng, name='', simple=True, ks=None, funcs=('tri', 'c
             orders.append(np.argsort(get_core_decomposition(a)))
         except Exception:
             pass
+        if len(orders) == 2:
+            out.append(Case(('argsort', g), {'entry': 'np.argsort', 'kind': 'contract'}, None, 'ok',
+                            'c11.contract_perm %d %s' % (n, enc_list(orders[1])), nontriv,
+                            {'f': 'get_dag', 'graph': gd, 'order': [int(x) for x in orders[1]], 'name': name}))
         for o in orders:
             def f_dag():
                 d = get_dag(a, order=o)
